@@ -1141,6 +1141,52 @@ def canonical_func(fi):
                     body.pop()
     sink_returns(node.body)
 
+    def sink_assigns(body):
+        """`<if whose every arm ends in v = e>; T = v` (v read nowhere else)  ->  every arm ends in `T = e` (what folding a helper
+        with several return statements back into `T = helper(..)` leaves behind)."""
+        for st in body:
+            for field in ('body', 'orelse', 'finalbody'):
+                sub = getattr(st, field, None)
+                if isinstance(sub, list) and sub and isinstance(sub[0], ast.stmt) and not isinstance(st, (ast.FunctionDef, ast.ClassDef)):
+                    sink_assigns(sub)
+            for h in getattr(st, 'handlers', []) or []:
+                sink_assigns(h.body)
+        i = 0
+        while i + 1 < len(body):
+            a, b = body[i], body[i + 1]
+            if isinstance(a, ast.If) and a.orelse and isinstance(b, ast.Assign) and len(b.targets) == 1 and isinstance(b.value, ast.Name):
+                v = b.value.id
+                inside = sum(1 for x in ast.walk(a) if isinstance(x, ast.Name) and x.id == v)
+                tnames = {x.id for x in ast.walk(b.targets[0]) if isinstance(x, ast.Name)}
+
+                def ends(lst):
+                    if not lst:
+                        return False
+                    last = lst[-1]
+                    if isinstance(last, ast.Assign) and len(last.targets) == 1 and isinstance(last.targets[0], ast.Name) and last.targets[0].id == v:
+                        return not any(isinstance(x, ast.Name) and x.id == v for st in lst[:-1] for x in ast.walk(st)) \
+                            and not any(isinstance(x, ast.Name) and x.id == v for x in ast.walk(last.value))
+                    if isinstance(last, ast.If) and last.orelse:
+                        return ends(last.body) and ends(last.orelse)
+                    return False
+
+                def conv(lst):
+                    last = lst[-1]
+                    if isinstance(last, ast.Assign):
+                        lst[-1] = ast.copy_location(ast.Assign(targets=[copy_ast(b.targets[0])], value=last.value), last)
+                    else:
+                        conv(last.body)
+                        conv(last.orelse)
+                if v not in tnames and uses_in_function(v) == inside + 1 and ends(a.body) and ends(a.orelse) \
+                        and not any(isinstance(x, ast.Name) and x.id in tnames for x in ast.walk(a.test)):
+                    conv(a.body)
+                    conv(a.orelse)
+                    del body[i + 1]
+                    ast.fix_missing_locations(a)
+                    continue
+            i += 1
+    sink_assigns(node.body)
+
     def join_same_returns(body):
         """`if c: A; return v` followed by `REST; return v` (the same plain name, not re-bound in REST) is `if c: A else: REST`
         followed by one `return v`: a guard clause that leaves with the value the function returns anyway."""
@@ -1396,6 +1442,39 @@ def canonical_func(fi):
                                 neg = ast.copy_location(ast.If(test=ast.UnaryOp(op=ast.Not(), operand=n.test), body=n.orelse[:-1], orelse=[]), n)
                                 out_.append(ast.fix_missing_locations(neg))
                         return out_
+            # both arms end by binding the same plain name: the binding is a choice made after the conditional
+            # (`if c: A; v = X else: B; v = Y` is `if c: A else: B` followed by `v = X if c else Y`), for a test that the arms
+            # cannot change (names / attributes / comparisons of them, no calls)
+            simple_test = not any(isinstance(x, (ast.Call, ast.NamedExpr, ast.Subscript)) for x in ast.walk(n.test))
+            if n.body and n.orelse and simple_test and (len(n.body) > 1 or len(n.orelse) > 1):
+                peeled = []
+                tnames_ = names_in(n.test)
+                while n.body and n.orelse:
+                    la, lb = n.body[-1], n.orelse[-1]
+                    same = isinstance(la, ast.Assign) and isinstance(lb, ast.Assign) and len(la.targets) == 1 and len(lb.targets) == 1 \
+                        and isinstance(la.targets[0], ast.Name) and isinstance(lb.targets[0], ast.Name) and la.targets[0].id == lb.targets[0].id
+                    if not same:
+                        break
+                    v = la.targets[0].id
+                    stored = {x.id for st in n.body[:-1] + n.orelse[:-1] for x in ast.walk(st) if isinstance(x, ast.Name) and isinstance(x.ctx, ast.Store)}
+                    root_stores = {x.value.id for st in n.body + n.orelse for x in ast.walk(st)
+                                   if isinstance(x, ast.Attribute) and isinstance(x.ctx, ast.Store) and isinstance(x.value, ast.Name)}
+                    if v in tnames_ or (tnames_ & (stored | {v})) or (tnames_ & root_stores):
+                        break
+                    val = ast.copy_location(ast.IfExp(test=copy_ast(n.test), body=la.value, orelse=lb.value), la)
+                    peeled.insert(0, ast.copy_location(ast.Assign(targets=[ast.Name(id=v, ctx=ast.Store())], value=val), la))
+                    n.body.pop()
+                    n.orelse.pop()
+                if peeled:
+                    out_ = []
+                    if n.body and n.orelse:
+                        out_.append(n)
+                    elif n.body:
+                        n.orelse = []
+                        out_.append(n)
+                    elif n.orelse:
+                        out_.append(ast.copy_location(ast.If(test=ast.UnaryOp(op=ast.Not(), operand=n.test), body=n.orelse, orelse=[]), n))
+                    return [ast.fix_missing_locations(x) for x in out_ + peeled]
             # a conditional update `if a < b: b = a` is `b = min(b, a)` (and `>` / max)
             if len(n.body) == 1 and not n.orelse and isinstance(n.body[0], ast.Assign) and len(n.body[0].targets) == 1 \
                     and isinstance(n.body[0].targets[0], (ast.Name, ast.Attribute)) and isinstance(n.test, ast.Compare) and len(n.test.ops) == 1 \
